@@ -581,7 +581,17 @@ pub fn record_minmax(path: &str, seed: u64, n: usize, with_serde: bool, rep: &mu
                     let xs: Vec<f64> = vals.iter().map(|v| v.0).collect();
                     let fresh = c % 2 == 0;
                     let by_ref = c % 3 == 0;
-                    let o = if fresh {
+                    // every fourth fresh batch is collected from a PARALLEL iterator (rayon fold / reduce with
+                    // one-element leaves): the same meaning, the extreme of the non-NaN values (C14, C19)
+                    let parallel = fresh && c % 4 == 0;
+                    let o = if parallel {
+                        use rayon::prelude::*;
+                        if by_ref {
+                            (xs.par_iter().with_max_len(1).collect::<Min>(), xs.par_iter().with_max_len(1).collect::<Max>())
+                        } else {
+                            (xs.clone().into_par_iter().with_max_len(1).collect::<Min>(), xs.clone().into_par_iter().with_max_len(1).collect::<Max>())
+                        }
+                    } else if fresh {
                         if by_ref {
                             (xs.iter().collect::<Min>(), xs.iter().collect::<Max>())
                         } else {
